@@ -142,6 +142,7 @@ func checkC03(p *core.Program, r *core.Report) {
 	r.Rule("R4", "in each Apply, the value stored by a setter, the value announced by the event and the value compared with the getter in the guard are the same value")
 	r.Rule("R5", "engine-side pairs: Contact.ReevaluateQueryBasedGroups reports exactly the groups it adds/removes; both of its callers forward (added, removed) to contact_groups_changed; the resume contact swap is announced by contact_refreshed; actions reach modifiers.Apply only through baseAction.applyModifier")
 	r.Rule("R6", "reset and rebuild: where an Apply calls a mutator that replaces a whole list by an empty one (a parameterless Contact method storing a fresh list into a field, e.g. ClearURNs) and also mutators that add to the same list, `mutated` no longer implies `changed`; every path that reports a change (returns true) is then also controlled by the false edge of an Equal comparison of that list")
+	r.Rule("R8", "`unchanged` includes `both unset`: every helper of the modifiers package that compares two values of one pointer type for equality and decides an Apply guard returns true when both are nil (evaluated over the nil/nil case) — otherwise clearing what is already unset is reported as a change, every time")
 	r.Rule("R7", "one notion of `same URN`: the Contact methods that take a URN (HasURN, RemoveURN, and AddURN through HasURN) compare it with the contact's URNs the same way everywhere (Identity() on both sides), so that `has` and `remove` cannot disagree; ContactURN.Equal, which decides whether a URN list changed, compares the complete raw URN that contact_urns_changed carries, never a projection of it")
 	r.Assumption("the replay semantics of each event type (that applying contact_name_changed sets the name, etc.) is the host's contract and is not checked")
 
@@ -167,6 +168,7 @@ func checkC03(p *core.Program, r *core.Report) {
 
 	c03R6(p, r, applies)
 	c03R7(p, r)
+	c03R8(p, r, applies)
 
 	// ---------------- R1
 	nSites := 0
@@ -714,6 +716,7 @@ func c03R5(p *core.Program, r *core.Report) {
 		}
 		stored := cs.Common().Args[len(cs.Common().Args)-1]
 		okAnn := false
+		wrongOperand := ""
 		for _, c2 := range core.Calls(cs.Caller, false) {
 			o := core.CalleeObj(c2.Common())
 			if o == nil || core.ObjName(o) != "flows/events.NewContactRefreshed" {
@@ -729,15 +732,37 @@ func c03R5(p *core.Program, r *core.Report) {
 			for _, cond := range controllingConds(c2.Instr.Block()) {
 				for v := range core.BackSlice(cond, func(*ssa.Call) bool { return true }) {
 					if c, ok := v.(*ssa.Call); ok {
-						if oo := core.CalleeObj(&c.Call); oo != nil && core.ObjName(oo) == "flows.Contact.Equal" {
-							okAnn = true
+						if oo := core.CalleeObj(&c.Call); oo != nil && core.ObjName(oo) == "flows.Contact.Equal" && len(c.Call.Args) == 2 {
+							// the comparison is between the new contact and the session's CURRENT contact: the other
+							// operand is Session.Contact() on the session whose contact is replaced
+							sessionOf := func(call ssa.CallInstruction) string {
+								if call.Common().IsInvoke() {
+									return canon(call.Common().Value)
+								}
+								return ""
+							}
+							for k, a := range c.Call.Args {
+								other := c.Call.Args[1-k]
+								if canon(a) != canon(stored) {
+									continue
+								}
+								if g, isCall := core.StripConv(other).(*ssa.Call); isCall && g.Call.IsInvoke() && g.Call.Method.Name() == "Contact" &&
+									core.ShortType(g.Call.Value.Type()) == "flows.Session" && sessionOf(g) == sessionOf(cs.Instr.(ssa.CallInstruction)) {
+									okAnn = true
+								} else {
+									wrongOperand = canonShort(other)
+								}
+							}
 						}
 					}
 				}
 			}
 		}
-		r.Check(okAnn, "R5", key, p.Pos(cs.Pos()), "contact_refreshed(new contact) logged under !Equal before the swap",
-			"session contact replaced without a contact_refreshed event guarded by Contact.Equal on the same value")
+		detail := "session contact replaced without a contact_refreshed event guarded by Contact.Equal on the same value"
+		if !okAnn && wrongOperand != "" {
+			detail = "the contact_refreshed guard compares the new contact with " + wrongOperand + " instead of the session's current contact (Session.Contact() of the session being updated): a resume carrying a contact equal to that other one replaces the session contact without an event"
+		}
+		r.Check(okAnn, "R5", key, p.Pos(cs.Pos()), "contact_refreshed(new contact) logged under !Session.Contact().Equal(new) before the swap", detail)
 	}
 	r.Require("session_setcontact_sites", nSC, 1)
 
@@ -1469,4 +1494,87 @@ func c03R7(p *core.Program, r *core.Report) {
 	}
 	r.Check(whole > 0 && partial == "", "R7", "ContactURN.Equal/whole-urn", p.Pos(eq.Pos()), "compares the complete raw URNs of both sides",
 		"ContactURN.Equal compares "+map[bool]string{true: "only " + partial + " of the URNs", false: "no part of the raw URNs"}[partial != ""]+": a change of the display or query part is not seen, UpdatePreferredChannel and the urns modifier then report `not modified` and emit no event although the raw URNs announced by contact_urns_changed differ")
+}
+
+// ---------------------------------------------------------------------------------------------- R8
+
+func c03R8(p *core.Program, r *core.Report, applies []*ssa.Function) {
+	n := 0
+	seen := map[*ssa.Function]bool{}
+	for _, ap := range applies {
+		for _, cs := range core.Calls(ap, false) {
+			g := cs.Common().StaticCallee()
+			if g == nil || g.Blocks == nil || seen[g] || core.FuncPkgPath(g) != core.FuncPkgPath(ap) || len(g.Params) != 2 || g.Signature.Results().Len() != 1 {
+				continue
+			}
+			if b, ok := g.Signature.Results().At(0).Type().Underlying().(*types.Basic); !ok || b.Kind() != types.Bool {
+				continue
+			}
+			if _, isPtr := g.Params[0].Type().Underlying().(*types.Pointer); !isPtr || !types.Identical(g.Params[0].Type(), g.Params[1].Type()) {
+				continue
+			}
+			// used in a condition?
+			v, isVal := cs.Instr.(ssa.Value)
+			if !isVal || v.Referrers() == nil {
+				continue
+			}
+			seen[g] = true
+			n++
+			result := core.Unk
+			mixed := false
+			isParam := func(x ssa.Value) bool { return x == ssa.Value(g.Params[0]) || x == ssa.Value(g.Params[1]) }
+			core.ExplorePaths(g, core.PathRules{
+				OnBranch: func(s *core.PathState, cond ssa.Value) core.AB {
+					bo, ok := cond.(*ssa.BinOp)
+					if !ok {
+						return core.Unk
+					}
+					var other ssa.Value
+					if core.IsNilConst(bo.Y) {
+						other = bo.X
+					} else if core.IsNilConst(bo.X) {
+						other = bo.Y
+					}
+					if other == nil || !isParam(other) {
+						if isParam(bo.X) && isParam(bo.Y) && bo.X != bo.Y {
+							// p1 == p2 with both nil
+							return boolAB(bo.Op == token.EQL)
+						}
+						return core.Unk
+					}
+					return boolAB(bo.Op == token.EQL)
+				},
+				OnExit: func(s *core.PathState, ret *ssa.Return, pan *ssa.Panic) {
+					if ret == nil {
+						mixed = true
+						return
+					}
+					v := s.Val(ret.Results[0])
+					if v == core.Unk {
+						rv := ret.Results[0]
+						if phi, ok := rv.(*ssa.Phi); ok {
+							if in := pathIncoming(s, phi); in != nil {
+								rv = in
+							}
+						}
+						if c, ok := rv.(*ssa.Const); ok && c.Value != nil {
+							v = boolAB(c.Value.String() == "true")
+						}
+					}
+					if v == core.Unk || (result != core.Unk && result != v) {
+						mixed = true
+					}
+					result = v
+				},
+			})
+			key := core.FuncName(g) + "/nil-nil-is-equal"
+			if mixed {
+				r.Unknown("R8", key, p.Pos(g.Pos()), "the helper's answer for two nil values could not be evaluated")
+				continue
+			}
+			r.Check(result == core.True, "R8", key, p.Pos(g.Pos()), "returns true for (nil, nil)",
+				core.FuncName(g)+" answers `not equal` for two unset values: the modifier that uses it as its guard reports a change and emits an event when it clears something that is already unset, on every application")
+		}
+	}
+	r.Require("pointer_equality_helpers", n, 1)
 }
